@@ -438,6 +438,15 @@ def _run(R):
         dims["rule_level_config"] += 1 if c.get("rule") else 0
         dims["cache_disabled"] += 1 if ((c.get("rule") or {}).get("cache_ttl") or conf.get("cache_ttl")) == "0s" else 0
         dims["non_ascii"] += 1 if any(ord(ch) > 127 for ch in json.dumps(gen_jwt.slim(c), ensure_ascii=False)) else 0
+        steps = [st.get("token") for st in list(c.get("pre") or []) + [c]]
+        standins = [k for t in steps if isinstance(t, dict) for k in (t.get("claims") or {}) if k in gen_jwt.STANDIN_TOP]
+        dims["standin_members"] += 1 if standins else 0
+        dims["standin_azp_or_client_id"] += 1 if any(k in ("azp", "client_id", "cid", "appid") for k in standins) else 0
+        if standins and "standin" in c.get("note", "") and "harmless" not in c.get("note", ""):
+            dims["standin_for_unsatisfied_registered_claim"] += 1
+            dims["standin_for_unsatisfied_registered_claim_refused"] += 1 if i["res"].get("verdict") == "reject" else 0
+        elif standins:
+            dims["standin_next_to_untouched_registered_claims_accepted"] += 1 if i["res"].get("verdict") == "accept" else 0
         if i["res"].get("verdict") == "accept" and st not in BAD:
             claim, want_id, want_attrs = recipe_subject(c, c.get("token"), info.get("srv", "$SRV"),
                                                         (i.get("abs") or {}).get("now", 0))
@@ -469,7 +478,10 @@ def _run(R):
         "evaluations": len(cases), "distinct_nontrivial": len(nontriv), "requests_executed": requests,
         "rule": "a case = authenticator configuration (JWKS or metadata endpoint, templated or not, assertions, subject "
                 "paths, JWK validation, cache_ttl) + optional rule-level configuration + key sets served by a loopback "
-                "endpoint + token recipe (signer, header, claims relative to the current second, mutations of the "
+                "endpoint + token recipe (signer, header, claims relative to the current second - registered claims "
+                "and, in a quarter of the cases, stand-in members such as azp, client_id, audience, Aud, scopes, "
+                "expires_at carrying what an assertion looks for while the registered claim is missing, empty or "
+                "somebody else's, or carrying something else next to satisfying registered claims -, mutations of the "
                 "compact serialisation) + optionally earlier requests to the same authenticator and (real, in-memory) "
                 "JWK cache, each with its own key sets; the real authenticator (CreatePrototype -> WithConfig -> "
                 "Execute) is compared request by request with the Lean model (Jwt.run) and with the Lean specification "
